@@ -31,4 +31,11 @@ for i,r in res:
     print(i,'->',r)
     if not r.startswith('caught'): bad+=1
 print('mutants=%d not-caught=%d'%(len(res),bad))
+if not only:
+    byid={m['id']:m for m in muts}
+    with open('selftest/RESULTS.md','w') as f:
+        f.write('| mutant | property | file | result |\n|-|-|-|-|\n')
+        for i,r in res:
+            f.write('| %s | %s | %s | %s |\n'%(i,byid[i]['property'],byid[i]['file'],r.split('\n')[0].replace('|','\\|')[:200]))
+        f.write('\nmutants=%d not-caught=%d\n'%(len(res),bad))
 sys.exit(1 if bad else 0)
